@@ -4,6 +4,7 @@ import (
 	"fmt"
 	"go/token"
 	"go/types"
+	"sort"
 	"strings"
 
 	"golang.org/x/tools/go/ssa"
@@ -13,59 +14,30 @@ func init() {
 	register(&PropSpec{
 		ID:    "C13",
 		Title: "A transient lower-layer failure fails one call and nothing else",
-		Explanation: "Decided (structural necessary conditions): G-gate — every syncutil.Gate slot taken in the storage, sorted-KV, schema, index and server packages is released on every CFG path (call, defer, or hand-over to a goroutine all of whose paths release), through acquiring/releasing wrappers; G-lock — every sync.Mutex/RWMutex Lock/RLock in those packages is unlocked on every path; G-rollback — in diskpacked.append no (transitive) writer of s.writer lies between the capture of the undo offset and the undo; G-tmp — files.ReceiveBlob registers the temp-file cleanup before any later return; G-errval — in the storage packages a pointer/interface co-returned with an error is used only where that error is known nil; G-chan — a channel with several sender goroutines is closed only after all senders joined; G-enum — enumerators close their channel on every path (rule E-close, shared with C01); G-recover — what a store's own recovery procedure reads is destroyed only after its replacement is durable, on every path including the error edges of the look-ups and uploads in between (rules X-compact of C11, Z-order of C04, D-dele-order/D-destroy/F-destroy of C03, shared). " +
-			"NOT decided: bounded completion time, agreement with the reference map after the fault, success of recovery procedures, any concrete fault schedule.",
+		Explanation: "Decided (structural necessary conditions, each over the EFFECTIVE BODY of the function concerned: the function plus, transitively to depth 6, the declared functions, methods, bound method values and function literals its call/go/defer instructions and spawner arguments run, with arguments mapped to parameters): " +
+			"G-gate - every syncutil.Gate slot taken in the storage, sorted-KV, schema, index, server and search packages is released on every CFG path: by a Done, a defer, a helper (or deferred/spawned named function) EVERY path of which releases the same gate, or a goroutine all of whose paths do; a helper that returns holding the slot (always, or exactly on its err==nil returns) passes the obligation to each of its call sites, but only when every use of the helper is a visible static call; slots deliberately owned by a returned object (sqlkv *batchTx, *iter - recognised by the TYPE returned, wherever it is built) must be released on all paths of that object's Close/CommitBatch; " +
+			"G-lock - the same pairing for every sync.Mutex/RWMutex Lock/RLock (mode and mutex path must match); " +
+			"G-rollback - in the effective body of diskpacked.(*storage).ReceiveBlob, located by role not by name: the undo Truncate/Seek after a failed index update rewinds to a value read from the size-tracking field BEFORE the append advanced it, no (transitive) writer of the file field lies between that capture and the undo (helpers followed), every exit reachable from the Truncate reports an error, and a Truncate undo sits on the failure edge of the index update (sorted.KeyValue.Set or a wrapper that succeeds only if Set did); " +
+			"G-tmp - files.ReceiveBlob registers the temp-file cleanup before any later return (shared with C03); G-errval - in the storage packages a pointer/interface co-returned with an error is dereferenced only where that error is known nil; G-chan - a channel with several sender goroutines (followed through parameters, literals and returning helpers) is closed only after a join that precedes the close in its function or in every synchronous caller; G-enum - enumerators close their channel on every path (rule E-close, shared with C01); G-recover - what a store's own recovery procedure reads is destroyed only after its replacement is durable (rules X-compact of C11, Z-order of C04, D-dele-order/D-destroy/F-destroy of C03, shared). " +
+			"NOT decided: bounded completion time, agreement with the reference map after the fault, success of recovery procedures, any concrete fault schedule; releases that depend on a run-time flag other than the resource's own nil test or the acquiring helper's error; that a join waits for the group that actually runs the senders.",
 		RuleDocs: map[string]string{
-			"G-gate":     "H4 pairing over every (*syncutil.Gate).Start call (and acquiring wrappers) in pkg/blobserver/..., pkg/sorted/..., pkg/schema, pkg/index, pkg/server: all paths to exits pass Done on the same gate (by access path), a deferred Done, or a spawned closure that releases on all its paths",
-			"G-lock":     "H4 pairing over every Lock/RLock on sync.Mutex/RWMutex in the same packages",
-			"G-rollback": "typestate: between capture of origOffset and the Seek/Truncate undo in diskpacked.(*storage).append no call may (transitively) assign s.writer",
+			"G-gate":     "interprocedural H4 pairing over every (*syncutil.Gate).Start (and every call of a helper that returns holding a slot) in pkg/blobserver/..., pkg/sorted/..., pkg/schema, pkg/index, pkg/server, pkg/search: all paths to exits pass a Done on the same gate (access path mapped through parameters/receivers/captures), a defer, a helper or deferred/spawned function all of whose paths release it, or the hand-over to a returned holder object whose release entry points release on all paths",
+			"G-lock":     "the same interprocedural pairing over every Lock/RLock on sync.Mutex/RWMutex in the same packages; single-statement Lock methods and helpers that return holding the lock (all uses visible static calls) move the obligation to their call sites",
+			"G-rollback": "typestate over the effective body of diskpacked.(*storage).ReceiveBlob: offset of the undo Seek/Truncate = pre-append value of the size field (through parameters, getters, captured variables); no transitive writer of the file field between capture and undo; the Truncate is followed only by failing returns; one Truncate undo lies on the failure edge of the index update",
 			"G-recover":  "shared obligations of C11 X-compact, C04 Z-order, C03 D-dele-order/D-destroy/F-destroy: the data a store's own recovery procedure reads (small meta blobs, loose blobs, pack extents, final blob files) is destroyed only after its replacement is durable and only by the removal entry points, on every path including error edges",
-			"G-tmp":      "files.(*Storage).ReceiveBlob: after TempFile succeeds, a deferred cleanup that removes the temp file unless a success flag is set is registered before any further return",
+			"G-tmp":      "files.(*Storage).ReceiveBlob: after TempFile succeeds, a deferred cleanup that removes the temp file unless a success flag is set is registered before any further return (implemented in rules_c03.go)",
 			"G-errval":   "contradiction rule: a pointer/interface result co-returned with an error is dereferenced only where the error is known nil",
-			"G-chan":     "a channel with >=2 sender goroutines is closed only after joining all senders",
+			"G-chan":     "a channel with >=2 sender goroutines (one start in a loop that does not re-make the channel counts as many) is closed only after a join of the senders; channel followed into callees' parameters, literals and callers of a function returning it; the join may sit in the closing function or before every synchronous call leading to it",
 		},
 		Run:       runC13,
 		DesignRef: "DESIGN.md §4 C13",
-		Technique: "static analysis: CFG path pairing (acquire/release) over go/ssa, typestate and dominance rules, contradiction rule on error-co-returned values",
-		LevelText: "Decides structural necessary conditions only: every gate slot and mutex taken in the storage/KV/schema/index/server packages is released on every CFG path; the diskpacked rollback acts on the file its offset was captured from; temp-file cleanup is registered before later returns; values co-returned with an error are not dereferenced on error paths; multi-sender channels are closed only after the senders joined. Does not decide timing, post-fault agreement with the reference map, or success of recovery.",
+		Technique: "static analysis: interprocedural CFG path pairing (acquire/release summaries per function, paths mapped through parameters) over go/ssa, typestate and dominance rules over effective bodies, contradiction rule on error-co-returned values",
+		LevelText: "Decides structural necessary conditions only: every gate slot and mutex taken in the storage/KV/schema/index/server packages is released on every CFG path (helpers, deferred methods and goroutines followed; acquiring helpers checked at their call sites); the diskpacked rollback rewinds the file its offset was captured from, to the pre-append offset, only on failing paths and on the failure edge of the index update; temp-file cleanup is registered before later returns; values co-returned with an error are not dereferenced on error paths; multi-sender channels are closed only after the senders joined. Does not decide timing, post-fault agreement with the reference map, or success of recovery.",
 	})
 }
 
 // scopeC13 lists the packages whose resources C13 is about.
 var scopeC13 = []string{"pkg/blobserver", "pkg/sorted", "pkg/schema", "pkg/index", "pkg/server", "pkg/search"}
-
-var gateSpec = &PairSpec{
-	Rule: "G-gate",
-	Acquire: func(c CallSite) (string, bool) {
-		if c.IsStatic("go4.org/syncutil", "Gate", "Start") {
-			return AccessPath(c.Args()[0]), true
-		}
-		return "", false
-	},
-	Release: func(c CallSite) (string, bool) {
-		if c.IsStatic("go4.org/syncutil", "Gate", "Done") {
-			return AccessPath(c.Args()[0]), true
-		}
-		return "", false
-	},
-}
-
-// gateHolders are functions that deliberately return holding a gate slot,
-// each with the place the slot is released. The named release functions are
-// re-checked structurally on every run.
-var gateHolders = map[string]struct {
-	reason    string
-	releaseIn [][3]string // functions (pkg, recv, name) that must contain a Gate.Done
-}{
-	"pkg/sorted/sqlkv.(*KeyValue).beginTx": {
-		"slot is held for the life of the transaction; released by batchTx commit/close",
-		[][3]string{{"pkg/sorted/sqlkv", "KeyValue", "CommitBatch"}, {"pkg/sorted/sqlkv", "batchTx", "Close"}},
-	},
-	"pkg/sorted/sqlkv.(*KeyValue).Find": {
-		"slot is held for the life of the iterator; released by iter.Close",
-		[][3]string{{"pkg/sorted/sqlkv", "KeyValue", "Find"}, {"pkg/sorted/sqlkv", "iter", "Close"}},
-	},
-}
 
 func runC13(p *Program, r *Reporter) {
 	fns := p.FuncsUnder(scopeC13...)
@@ -119,131 +91,1006 @@ func ruleGRecover(p *Program, r *Reporter) {
 	r.Floor(rule, floor)
 }
 
-func ruleGGate(p *Program, r *Reporter, fns []*ssa.Function) {
-	ps := gateSpec
-	sums := ps.Summarize(fns)
-	// extended classifiers including wrappers (bound 1)
-	acq := func(c CallSite) (string, bool) {
-		if pth, ok := ps.Acquire(c); ok {
-			return pth, true
-		}
-		if f := c.Callee(); f != nil {
-			if _, holder := gateHolders[FuncKey(f)]; holder {
-				return "", false // the returned object owns the slot (see gateHolders)
-			}
-			if s := sums[f]; s != nil && len(s.Acquires) == 1 {
-				return TranslatePath(c, f, s.Acquires[0])
-			}
-		}
-		return "", false
-	}
-	rel := func(c CallSite) (string, bool) {
-		if pth, ok := ps.Release(c); ok {
-			return pth, true
-		}
-		if f := c.Callee(); f != nil {
-			if s := sums[f]; s != nil && len(s.Releases) == 1 {
-				return TranslatePath(c, f, s.Releases[0])
-			}
-		}
-		return "", false
-	}
-	ext := &PairSpec{Rule: ps.Rule, Acquire: acq, Release: rel}
-	n := 0
-	for _, fn := range fns {
-		if IsTestSupportPkg(RelPkg(fn.Pkg.Pkg)) {
-			continue
-		}
-		for _, c := range CallsIn(fn, false) {
-			path, ok := acq(c)
-			if !ok || c.IsDefer() || c.IsGo() {
-				continue
-			}
-			n++
-			construct := FuncKey(fn) + "#" + path
-			site := p.Pos(c.Pos())
-			// acquiring wrapper: obligation moves to its callers (already enumerated through acq)
-			if s := sums[fn]; s != nil && len(s.Acquires) > 0 && fn.Parent() == nil {
-				if h, isHolder := gateHolders[FuncKey(fn)]; isHolder {
-					// cross-function holder: verify the named release sites exist
-					okAll := true
-					bad := "cross-function holder but the recorded release function no longer releases a gate: " + h.reason
-					for _, rf := range h.releaseIn {
-						f := p.LookupFunc(rf[0], rf[1], rf[2])
-						found := false
-						if f != nil {
-							found = mentionsGateDone(f) || callsField(f, "releaseGate")
-						}
-						if !found {
-							okAll = false
-							continue
-						}
-						// the release function must release on EVERY path (assuming a gate is configured),
-						// unless it is the acquiring function itself (which hands the release over)
-						if f == fn {
-							continue
-						}
-						if leaks := holderReleaseLeaks(f); len(leaks) > 0 {
-							okAll = false
-							bad = fmt.Sprintf("the slot taken here is to be released by %s, but that function has %d path(s) that return without releasing the gate (first: exit at line %d): a failed %s leaks the slot for good",
-								FuncKey(f), len(leaks), p.Fset.Position(leaks[0].Exit.Pos()).Line, fn.Name())
-						}
-					}
-					r.Check(okAll, "G-gate", construct, site,
-						"cross-function holder ("+h.reason+"); every recorded release function releases the gate on all its paths", bad)
-					continue
-				}
-				if isParamRooted(fn, path) {
-					r.OK("G-gate", construct, site, "acquiring wrapper: obligation checked at each caller")
-					continue
-				}
-			}
-			if drainIdiom(c) {
-				r.OK("G-gate", construct, site, "drains all tokens of a function-local gate to join workers (capacity constant matches loop bound)")
-				continue
-			}
-			okp, detail := ext.CheckAcquire(c, path, nil)
-			r.Check(okp, "G-gate", construct, site, detail, detail)
-		}
-	}
-	r.Analysed("gate_start_sites", n)
-	r.Floor("G-gate", 20)
+// ---------------------------------------------------------------------------
+// Interprocedural acquire/release pairing (G-gate, G-lock)
+//
+// The obligations are stated over a function's EFFECTIVE BODY: a release that
+// sits in a helper, a deferred named method, a method value handed to a
+// spawner or a goroutine started on a named function counts exactly like one
+// written in place, provided EVERY path through that helper releases the
+// resource (paths mapped through parameters, receivers and captured
+// variables); an acquire that a helper performs and still holds when it returns
+// (always, or exactly on its err==nil returns) is an acquire of each of its
+// callers - but only when every call of the helper is a visible static call,
+// so that the obligation is checked somewhere.
+
+const c13MaxDepth = 6
+
+// c13Tgt is a function that a call/go/defer instruction runs, with the values
+// standing for its parameters (receiver first).
+type c13Tgt struct {
+	fn    *ssa.Function
+	args  []ssa.Value
+	async bool // started as a goroutine (go statement or spawner argument)
 }
 
-func isParamRooted(fn *ssa.Function, path string) bool {
+// c13FuncOfValue resolves a function-typed value to the function it denotes:
+// a declared function, a function literal (also through the local variable it
+// is bound to), or a bound method value (x.m), for which the receiver is
+// returned as the leading argument.
+func c13FuncOfValue(v ssa.Value) (*ssa.Function, []ssa.Value) {
+	if v == nil {
+		return nil, nil
+	}
+	switch x := originValue(v).(type) {
+	case *ssa.Function:
+		return x, nil
+	case *ssa.MakeClosure:
+		f, _ := x.Fn.(*ssa.Function)
+		if f == nil {
+			return nil, nil
+		}
+		if strings.HasPrefix(f.Synthetic, "bound method wrapper") {
+			obj, _ := f.Object().(*types.Func)
+			if obj == nil || f.Prog == nil || len(x.Bindings) != 1 {
+				return nil, nil
+			}
+			if real := f.Prog.FuncValue(obj); real != nil {
+				return real, []ssa.Value{x.Bindings[0]}
+			}
+			return nil, nil
+		}
+		return f, nil
+	}
+	return nil, nil
+}
+
+// c13FuncsOfValue is c13FuncOfValue over every alternative of a phi
+// (`var f func(); if c { f = func() {...} }`).
+func c13FuncsOfValue(v ssa.Value, depth int) []*ssa.Function {
+	if f, _ := c13FuncOfValue(v); f != nil {
+		return []*ssa.Function{f}
+	}
+	var out []*ssa.Function
+	if ph, ok := originValue(v).(*ssa.Phi); ok && depth < 4 {
+		for _, e := range ph.Edges {
+			out = append(out, c13FuncsOfValue(e, depth+1)...)
+		}
+	}
+	return out
+}
+
+// c13CallTargets lists the source functions the instruction runs: its static
+// callee (declared function, literal, bound method value) and, for the known
+// spawners, the functions passed to them.
+func c13CallTargets(c CallSite) []c13Tgt {
+	var out []c13Tgt
+	cc := c.Common()
+	if !cc.IsInvoke() {
+		if f, bound := c13FuncOfValue(cc.Value); f != nil && len(f.Blocks) > 0 {
+			args := append(append([]ssa.Value(nil), bound...), cc.Args...)
+			out = append(out, c13Tgt{f, args, c.IsGo()})
+		}
+	}
+	if isSpawner(c) {
+		for _, a := range cc.Args {
+			if _, isFn := a.Type().Underlying().(*types.Signature); !isFn {
+				continue
+			}
+			if f, bound := c13FuncOfValue(a); f != nil && len(f.Blocks) > 0 {
+				out = append(out, c13Tgt{f, bound, true})
+			}
+		}
+	}
+	return out
+}
+
+// c13SplitPath splits "W|&s.mu" into mode "W|", prefix "&" and bare "s.mu".
+func c13SplitPath(path string) (mode, pre, bare string) {
+	if i := strings.Index(path, "|"); i >= 0 {
+		mode, path = path[:i+1], path[i+1:]
+	}
+	for strings.HasPrefix(path, "&") || strings.HasPrefix(path, "*") {
+		pre, path = pre+path[:1], path[1:]
+	}
+	return mode, pre, path
+}
+
+func c13RootedAt(bare, name string) bool {
+	return name != "" && name != "_" && (bare == name || strings.HasPrefix(bare, name+".") || strings.HasPrefix(bare, name+"["))
+}
+
+// c13Up rewrites a path stated in the terms of target t.fn into the terms of
+// the instruction that runs it: parameter-rooted paths through the actual
+// arguments; package-level variables and - for function literals - captured
+// variables denote the same thing on both sides.
+func c13Up(t c13Tgt, path string) (string, bool) {
+	if path == "" {
+		return "", true // rule-specific release form without a path (match-any queries)
+	}
+	mode, pre, bare := c13SplitPath(path)
+	for i, prm := range t.fn.Params {
+		if i >= len(t.args) {
+			break
+		}
+		name := prm.Name()
+		if !c13RootedAt(bare, name) {
+			continue
+		}
+		ap := AccessPath(t.args[i])
+		if bare != name {
+			switch {
+			case strings.HasPrefix(ap, "&"):
+				ap = ap[1:] // (&v).f == v.f
+			case strings.HasPrefix(ap, "*"), strings.HasPrefix(ap, "?"):
+				return "", false
+			}
+		}
+		return mode + pre + ap + bare[len(name):], true
+	}
+	if strings.HasPrefix(bare, "global:") {
+		return path, true
+	}
+	if t.fn.Parent() != nil {
+		return path, true
+	}
+	return "", false
+}
+
+// c13Translatable: can a path of fn be stated in a caller's terms?
+func c13Translatable(fn *ssa.Function, path string) bool {
+	_, _, bare := c13SplitPath(path)
+	if strings.HasPrefix(bare, "global:") {
+		return true
+	}
 	for _, prm := range fn.Params {
-		if path == prm.Name() || strings.HasPrefix(path, prm.Name()+".") {
+		if c13RootedAt(bare, prm.Name()) {
 			return true
 		}
 	}
 	return false
 }
 
-// drainIdiom recognises `for range N { g.Start() }` on a gate created in the
-// same function by syncutil.NewGate(N).
+// c13NilAssume: after an acquire through pointer path, `path == nil` is false
+// (the resource exists); helpers test exactly that before releasing.
+func c13NilAssume(path string, also func(ssa.Value) bool) func(ssa.Value) (bool, bool) {
+	_, pre, bare := c13SplitPath(path)
+	want := pre + bare
+	return func(cond ssa.Value) (bool, bool) {
+		bo, ok := cond.(*ssa.BinOp)
+		if !ok || (bo.Op != token.NEQ && bo.Op != token.EQL) {
+			return false, false
+		}
+		var other ssa.Value
+		if IsNilConst(bo.Y) {
+			other = bo.X
+		} else if IsNilConst(bo.X) {
+			other = bo.Y
+		}
+		if other == nil {
+			return false, false
+		}
+		if (want != "" && AccessPath(other) == want) || (also != nil && also(other)) {
+			return true, bo.Op == token.NEQ
+		}
+		return false, false
+	}
+}
+
+// c13Edges: for every source function, the functions its instructions run
+// (reverse map: target -> runners). Shared by the pairing engines.
+var c13EdgeCache = map[*Program]map[*ssa.Function][]*ssa.Function{}
+
+func c13Edges(p *Program) map[*ssa.Function][]*ssa.Function {
+	if m, ok := c13EdgeCache[p]; ok {
+		return m
+	}
+	rev := map[*ssa.Function][]*ssa.Function{}
+	for _, f := range p.AllFuncs {
+		for _, c := range CallsIn(f, false) {
+			for _, t := range c13CallTargets(c) {
+				rev[t.fn] = append(rev[t.fn], f)
+			}
+		}
+	}
+	c13EdgeCache = map[*Program]map[*ssa.Function][]*ssa.Function{p: rev}
+	return rev
+}
+
+type c13Kind int
+
+const (
+	c13Balanced  c13Kind = iota // released on every path inside the function
+	c13Always                   // held at every exit reachable from the acquire: the callers' obligation
+	c13OnSuccess                // held exactly at the err==nil exits: the callers' obligation on that edge
+	c13Holder                   // handed to a returned holder object (rule-specific table)
+	c13Leaky                    // some path leaks
+)
+
+type c13Class struct {
+	kind    c13Kind
+	ok      bool
+	detail  string
+	callers int
+}
+
+type c13Held struct {
+	path      string
+	onSuccess bool
+}
+
+type c13Acq struct {
+	path string
+	ev   ssa.Value     // non-nil: the resource is held only where this error value is nil
+	via  *ssa.Function // acquiring helper, nil for a primitive acquire
+}
+
+type c13ClsKey struct {
+	in   ssa.Instruction
+	path string
+}
+
+type c13Pair struct {
+	p       *Program
+	rule    string
+	acquire func(CallSite) (string, bool)
+	release func(CallSite) (string, bool)
+	// extraStop: rule-specific release forms (match-any queries only)
+	extraStop func(CallSite) bool
+	// holder: rule-specific classification of a leaking acquire as a hand-over to a returned object
+	holder func(c CallSite, path string, leaks []Leak) *c13Class
+	// trivial: single-statement wrappers exempt from the visible-callers condition
+	trivial func(*ssa.Function) bool
+	// noPrefilter: do not restrict release summaries to functions that contain a primitive release
+	noPrefilter bool
+
+	mayRel, mayAcq map[*ssa.Function]bool
+	relMemo        map[*ssa.Function][]string
+	relBusy        map[*ssa.Function]bool
+	acqMemo        map[*ssa.Function][]c13Held
+	acqBusy        map[*ssa.Function]bool
+	clsMemo        map[c13ClsKey]*c13Class
+	handMemo       map[*ssa.Function]int
+	boundObjs      map[*types.Func]bool
+}
+
+func newC13Pair(p *Program, rule string, acq, rel func(CallSite) (string, bool)) *c13Pair {
+	e := &c13Pair{p: p, rule: rule, acquire: acq, release: rel,
+		mayRel: map[*ssa.Function]bool{}, mayAcq: map[*ssa.Function]bool{},
+		relMemo: map[*ssa.Function][]string{}, relBusy: map[*ssa.Function]bool{},
+		acqMemo: map[*ssa.Function][]c13Held{}, acqBusy: map[*ssa.Function]bool{},
+		clsMemo: map[c13ClsKey]*c13Class{}, handMemo: map[*ssa.Function]int{}}
+	rev := c13Edges(p)
+	var relWork, acqWork []*ssa.Function
+	for _, f := range p.AllFuncs {
+		for _, c := range CallsIn(f, false) {
+			if _, ok := rel(c); ok && !e.mayRel[f] {
+				e.mayRel[f] = true
+				relWork = append(relWork, f)
+			}
+			if _, ok := acq(c); ok && !e.mayAcq[f] {
+				e.mayAcq[f] = true
+				acqWork = append(acqWork, f)
+			}
+		}
+	}
+	spread := func(set map[*ssa.Function]bool, work []*ssa.Function) {
+		for len(work) > 0 {
+			f := work[len(work)-1]
+			work = work[:len(work)-1]
+			for _, g := range rev[f] {
+				if !set[g] {
+					set[g] = true
+					work = append(work, g)
+				}
+			}
+		}
+	}
+	spread(e.mayRel, relWork)
+	spread(e.mayAcq, acqWork)
+	return e
+}
+
+// stop: does instruction in discharge the obligation to release a resource
+// whose path satisfies match? A primitive release, or a call / defer / go /
+// spawn of a function every path of which releases it.
+func (e *c13Pair) stop(in ssa.Instruction, match func(string) bool, depth int) bool {
+	ci, ok := in.(ssa.CallInstruction)
+	if !ok {
+		return false
+	}
+	c := CallSite{in.Parent(), ci}
+	if p, ok := e.release(c); ok && match(p) {
+		return true
+	}
+	if e.extraStop != nil && e.extraStop(c) && match("") {
+		return true
+	}
+	for _, t := range c13CallTargets(c) {
+		for _, cp := range e.relSum(t.fn, depth+1) {
+			if up, ok := c13Up(t, cp); ok && match(up) {
+				return true
+			}
+		}
+	}
+	return false
+}
+
+// relSum: the paths (in fn's own terms) that every path through fn releases.
+func (e *c13Pair) relSum(fn *ssa.Function, depth int) []string {
+	if fn == nil || (!e.noPrefilter && !e.mayRel[fn]) || len(fn.Blocks) == 0 || depth > c13MaxDepth {
+		return nil
+	}
+	if s, ok := e.relMemo[fn]; ok {
+		return s
+	}
+	if e.relBusy[fn] {
+		return nil
+	}
+	e.relBusy[fn] = true
+	var cands []string
+	add := func(s string) {
+		for _, x := range cands {
+			if x == s {
+				return
+			}
+		}
+		cands = append(cands, s)
+	}
+	for _, c := range CallsIn(fn, false) {
+		if p, ok := e.release(c); ok {
+			add(p)
+		}
+		if e.extraStop != nil && e.extraStop(c) {
+			add("")
+		}
+		for _, t := range c13CallTargets(c) {
+			for _, cp := range e.relSum(t.fn, depth+1) {
+				if up, ok := c13Up(t, cp); ok {
+					add(up)
+				}
+			}
+		}
+	}
+	var out []string
+	for _, cand := range cands {
+		cand := cand
+		if e.allPaths(fn, func(s string) bool { return s == cand }, c13NilAssume(cand, nil), depth) {
+			out = append(out, cand)
+		}
+	}
+	delete(e.relBusy, fn)
+	e.relMemo[fn] = out
+	return out
+}
+
+// allPaths: every path from fn's entry to a normal exit passes a stop.
+func (e *c13Pair) allPaths(fn *ssa.Function, match func(string) bool, assume func(ssa.Value) (bool, bool), depth int) bool {
+	return len(e.entryLeaks(fn, match, assume, depth)) == 0
+}
+
+func (e *c13Pair) entryLeaks(fn *ssa.Function, match func(string) bool, assume func(ssa.Value) (bool, bool), depth int) []Leak {
+	first := fn.Blocks[0].Instrs[0]
+	stop := func(in ssa.Instruction) bool { return e.stop(in, match, depth) }
+	if stop(first) {
+		return nil
+	}
+	if _, isRet := first.(*ssa.Return); isRet {
+		return []Leak{{Exit: first}}
+	}
+	return LeakingExits(PathQuery{Start: first, Stop: stop, Assume: assume, IgnorePanics: true})
+}
+
+// acqAt: the resources instruction c acquires for the function it is in.
+func (e *c13Pair) acqAt(c CallSite) []c13Acq {
+	if c.IsDefer() || c.IsGo() {
+		return nil
+	}
+	if p, ok := e.acquire(c); ok {
+		return []c13Acq{{path: p}}
+	}
+	f := c.Callee()
+	if f == nil || f.Parent() != nil || !e.mayAcq[f] || len(f.Blocks) == 0 {
+		return nil
+	}
+	var out []c13Acq
+	for _, h := range e.acqSum(f) {
+		up, ok := c13Up(c13Tgt{fn: f, args: c.Args()}, h.path)
+		if !ok {
+			continue
+		}
+		a := c13Acq{path: up, via: f}
+		if h.onSuccess {
+			if call := c.Value(); call != nil {
+				if ev, _, discarded := ErrValue(call); ev != nil && !discarded {
+					a.ev = ev
+				}
+			}
+		}
+		out = append(out, a)
+	}
+	return out
+}
+
+// acqSum: what the declared function fn holds when it returns.
+func (e *c13Pair) acqSum(fn *ssa.Function) []c13Held {
+	if s, ok := e.acqMemo[fn]; ok {
+		return s
+	}
+	if e.acqBusy[fn] {
+		return nil
+	}
+	e.acqBusy[fn] = true
+	var out []c13Held
+	for _, c := range CallsIn(fn, false) {
+		for _, a := range e.acqAt(c) {
+			cl := e.classify(c, a)
+			if cl.kind == c13Always || cl.kind == c13OnSuccess {
+				dup := false
+				for _, h := range out {
+					if h.path == a.path {
+						dup = true
+					}
+				}
+				if !dup {
+					out = append(out, c13Held{a.path, cl.kind == c13OnSuccess})
+				}
+			}
+		}
+	}
+	delete(e.acqBusy, fn)
+	e.acqMemo[fn] = out
+	return out
+}
+
+// c13Recursive: fn can reach itself through the instructions it runs (an
+// obligation handed from callee to caller must come to rest somewhere).
+func c13Recursive(p *Program, fn *ssa.Function) bool {
+	rev := c13Edges(p)
+	seen := map[*ssa.Function]bool{}
+	work := append([]*ssa.Function(nil), rev[fn]...)
+	for len(work) > 0 {
+		f := work[len(work)-1]
+		work = work[:len(work)-1]
+		f = TopFunc(f)
+		if f == fn {
+			return true
+		}
+		if seen[f] {
+			continue
+		}
+		seen[f] = true
+		work = append(work, rev[f]...)
+	}
+	return false
+}
+
+// visibleCallers: number of static call sites of fn when EVERY use of fn is a
+// plain static call (no method value, no function value, no interface
+// dispatch); 0 otherwise.
+func (e *c13Pair) visibleCallers(fn *ssa.Function) int {
+	if n, ok := e.handMemo[fn]; ok {
+		return n
+	}
+	n := 0
+	func() {
+		if fn.Parent() != nil {
+			return
+		}
+		callers := 0
+		for _, cs := range e.p.StaticCallers(fn) {
+			if top := TopFunc(cs.Fn); top.Pkg != nil && !IsTestSupportPkg(RelPkg(top.Pkg.Pkg)) {
+				callers++
+			}
+		}
+		if callers == 0 || len(e.p.FuncValueUses(fn)) > 0 || c13Recursive(e.p, fn) {
+			return
+		}
+		if e.boundObjs == nil {
+			e.boundObjs = map[*types.Func]bool{}
+			for _, f := range e.p.AllFuncs {
+				for _, b := range f.Blocks {
+					for _, in := range b.Instrs {
+						if mc, ok := in.(*ssa.MakeClosure); ok {
+							if bf, ok := mc.Fn.(*ssa.Function); ok && strings.HasPrefix(bf.Synthetic, "bound method wrapper") {
+								if obj, _ := bf.Object().(*types.Func); obj != nil {
+									e.boundObjs[obj] = true
+								}
+							}
+						}
+					}
+				}
+			}
+		}
+		if obj, _ := fn.Object().(*types.Func); obj != nil && e.boundObjs[obj] {
+			return
+		}
+		if len(e.p.InvokeSites(fn)) > 0 {
+			return
+		}
+		n = callers
+	}()
+	e.handMemo[fn] = n
+	return n
+}
+
+func (e *c13Pair) classify(c CallSite, a c13Acq) *c13Class {
+	key := c13ClsKey{c.Instr, a.path}
+	if cl, ok := e.clsMemo[key]; ok {
+		return cl
+	}
+	cl := e.classify1(c, a)
+	e.clsMemo[key] = cl
+	return cl
+}
+
+func (e *c13Pair) classify1(c CallSite, a c13Acq) *c13Class {
+	path := a.path
+	match := func(s string) bool { return s == path }
+	// a covering defer registered before the acquire
+	for _, d := range DeferredCalls(c.Fn) {
+		if Precedes(d.Instr, c.Instr) && e.stop(d.Instr, match, 0) {
+			return &c13Class{kind: c13Balanced, ok: true, detail: "released by a defer registered before the acquire"}
+		}
+	}
+	// conditions already decided on the way to the acquire
+	// (`if g != nil { g.Start() } ... if g != nil { g.Done() }`)
+	decided := map[string]bool{}
+	for _, f := range FactsAt(c.Block()) {
+		if k := CondKey(f.Cond); k != "" {
+			decided[k] = f.Val
+		}
+	}
+	nilAssume := c13NilAssume(path, nil)
+	assume := func(cond ssa.Value) (bool, bool) {
+		if a.ev != nil {
+			// the helper holds the resource only when it reports success
+			if k, isNil := condSaysNil(cond, true, a.ev); k {
+				return true, isNil
+			}
+		}
+		if k, v := nilAssume(cond); k {
+			return k, v
+		}
+		if k := CondKey(cond); k != "" {
+			if v, ok := decided[k]; ok {
+				return true, v
+			}
+		}
+		return false, false
+	}
+	stop := func(in ssa.Instruction) bool { return e.stop(in, match, 0) }
+	leaks := LeakingExits(PathQuery{Start: c.Instr, Stop: stop, Assume: assume, IgnorePanics: true})
+	if len(leaks) == 0 {
+		return &c13Class{kind: c13Balanced, ok: true, detail: "released (call, defer, helper that releases on all its paths, or hand-over to a goroutine that does) on every path to every exit"}
+	}
+	if e.holder != nil {
+		if cl := e.holder(c, path, leaks); cl != nil {
+			return cl
+		}
+	}
+	fn := c.Fn
+	// an acquire repeated in a loop takes a number of slots no caller can give back:
+	// it is never summarised as "held at return"
+	if fn.Parent() == nil && c13Translatable(fn, path) && !inLoop(c.Block()) {
+		n := e.visibleCallers(fn)
+		if n == 0 && e.trivial != nil && e.trivial(fn) {
+			n = len(e.p.StaticCallers(fn))
+			if n == 0 {
+				n = 1
+			}
+		}
+		if n > 0 {
+			all := LeakingExits(PathQuery{Start: c.Instr, Stop: func(ssa.Instruction) bool { return false }, Assume: assume, IgnorePanics: true})
+			if len(leaks) == len(all) {
+				return &c13Class{kind: c13Always, ok: true, callers: n,
+					detail: fmt.Sprintf("acquiring helper: %s is held at every return after the acquire; the obligation is checked at each of its %d static call sites (no other use of the function exists)", path, n)}
+			}
+			if idx := ErrResultIndex(fn); idx >= 0 {
+				leaking := map[ssa.Instruction]bool{}
+				for _, l := range leaks {
+					leaking[l.Exit] = true
+				}
+				maybeNil := map[ssa.Instruction]bool{}
+				for _, nr := range MaybeNilErrorReturns(fn) {
+					maybeNil[nr.Ret] = true
+				}
+				iff := true
+				for _, x := range all {
+					ret, isRet := x.Exit.(*ssa.Return)
+					if !isRet {
+						iff = false
+						break
+					}
+					if leaking[ret] {
+						v := resolveReturnValue(ret.Results[idx], ret)
+						k, isNil := NilFact(ret.Block(), v)
+						if !(IsNilConst(v) || (k && isNil)) {
+							iff = false
+						}
+					} else if maybeNil[ret] {
+						iff = false
+					}
+				}
+				if iff {
+					return &c13Class{kind: c13OnSuccess, ok: true, callers: n,
+						detail: fmt.Sprintf("acquiring helper: %s is held exactly at the returns whose error is nil and released before every failing return; the obligation is checked on the err==nil edge of each of its %d static call sites", path, n)}
+				}
+			}
+		}
+	}
+	var exits []string
+	for _, l := range leaks {
+		exits = append(exits, fmt.Sprintf("exit at line %d via blocks %s", c.Fn.Prog.Fset.Position(l.Exit.Pos()).Line, blockNames(l.Via)))
+		if len(exits) >= 3 {
+			break
+		}
+	}
+	via := ""
+	if a.via != nil {
+		via = " (through " + FuncKey(a.via) + ", which returns holding it)"
+	}
+	return &c13Class{kind: c13Leaky, detail: fmt.Sprintf("%s acquired%s but not released on %d exit path(s): %s", path, via, len(leaks), strings.Join(exits, "; "))}
+}
+
+// c13StablePath drops the per-run address that AccessPath appends to values it
+// cannot name ("?t35@0xc000..." -> "?t35"): construct keys must not change
+// from run to run.
+func c13StablePath(path string) string {
+	for {
+		i := strings.Index(path, "@0x")
+		if i < 0 {
+			return path
+		}
+		j := i + 3
+		for j < len(path) && (path[j] >= '0' && path[j] <= '9' || path[j] >= 'a' && path[j] <= 'f') {
+			j++
+		}
+		path = path[:i] + path[j:]
+	}
+}
+
+// scan reports one obligation per acquire site in fns, and in the callers
+// (wherever they live) of every acquiring helper found on the way.
+func (e *c13Pair) scan(r *Reporter, fns []*ssa.Function, idiom func(c CallSite, a c13Acq) (string, bool)) int {
+	n := 0
+	inScope := map[*ssa.Function]bool{}
+	for _, fn := range fns {
+		inScope[fn] = true
+	}
+	one := func(fn *ssa.Function, helperOnly bool) {
+		if !e.mayAcq[fn] {
+			return
+		}
+		for _, c := range CallsIn(fn, false) {
+			for _, a := range e.acqAt(c) {
+				if helperOnly && a.via == nil {
+					continue
+				}
+				n++
+				construct := FuncKey(fn) + "#" + c13StablePath(a.path)
+				site := e.p.Pos(c.Pos())
+				if idiom != nil {
+					if why, ok := idiom(c, a); ok {
+						r.OK(e.rule, construct, site, why)
+						continue
+					}
+				}
+				cl := e.classify(c, a)
+				r.Check(cl.ok, e.rule, construct, site, cl.detail, cl.detail)
+			}
+		}
+	}
+	for _, fn := range fns {
+		if IsTestSupportPkg(RelPkg(fn.Pkg.Pkg)) {
+			continue
+		}
+		one(fn, false)
+	}
+	// callers outside the scanned packages of helpers that return holding a resource
+	for round := 0; round < 4; round++ {
+		var extra []*ssa.Function
+		var helpers []*ssa.Function
+		for h, held := range e.acqMemo {
+			if len(held) > 0 {
+				helpers = append(helpers, h)
+			}
+		}
+		sort.Slice(helpers, func(i, j int) bool { return FuncKey(helpers[i]) < FuncKey(helpers[j]) })
+		for _, h := range helpers {
+			for _, cs := range e.p.StaticCallers(h) {
+				if cs.Fn.Pkg == nil || inScope[cs.Fn] || IsTestSupportPkg(RelPkg(TopFunc(cs.Fn).Pkg.Pkg)) {
+					continue
+				}
+				inScope[cs.Fn] = true
+				extra = append(extra, cs.Fn)
+			}
+		}
+		if len(extra) == 0 {
+			break
+		}
+		for _, fn := range extra {
+			one(fn, true)
+		}
+	}
+	return n
+}
+
+// ---------------------------------------------------------------------------
+// G-gate
+
+func c13GateOp(c CallSite, name string) (string, bool) {
+	if c.IsStatic("go4.org/syncutil", "Gate", name) {
+		return AccessPath(c.Args()[0]), true
+	}
+	return "", false
+}
+
+// gateSpec is the primitive gate discipline (kept for other rule files).
+var gateSpec = &PairSpec{
+	Rule:    "G-gate",
+	Acquire: func(c CallSite) (string, bool) { return c13GateOp(c, "Start") },
+	Release: func(c CallSite) (string, bool) { return c13GateOp(c, "Done") },
+}
+
+// c13GateHolderTypes: objects that deliberately own a gate slot taken by the
+// function that returns them, each with the interface entry points that give the
+// slot back. Keyed by the TYPE of the returned object (not by the function that
+// builds it); the release functions are re-checked structurally on every run.
+var c13GateHolderTypes = map[string]struct {
+	reason    string
+	releaseIn [][3]string
+}{
+	"pkg/sorted/sqlkv.batchTx": {
+		"slot is held for the life of the transaction; released by batchTx commit/close",
+		[][3]string{{"pkg/sorted/sqlkv", "KeyValue", "CommitBatch"}, {"pkg/sorted/sqlkv", "batchTx", "Close"}},
+	},
+	"pkg/sorted/sqlkv.iter": {
+		"slot is held for the life of the iterator; released by iter.Close",
+		[][3]string{{"pkg/sorted/sqlkv", "iter", "Close"}},
+	},
+}
+
+func c13IsGateValue(v ssa.Value) bool { return IsNamed(v.Type(), "go4.org/syncutil", "Gate") }
+
+// c13HolderKey: the holder type (key of c13GateHolderTypes) among the values
+// returned at ret, "" if none.
+func c13HolderKey(ret *ssa.Return) string {
+	for _, res := range ret.Results {
+		v := originValue(resolveReturnValue(res, ret))
+		if v == nil {
+			continue
+		}
+		if n := NamedOf(v.Type()); n != nil && n.Obj().Pkg() != nil {
+			k := RelPkg(n.Obj().Pkg()) + "." + n.Obj().Name()
+			if _, ok := c13GateHolderTypes[k]; ok {
+				return k
+			}
+		}
+	}
+	return ""
+}
+
+// c13ReleaseClosureFields: the func-typed fields of holder type key into which
+// some function of its package stores a closure that gives a gate slot back
+// (iter.releaseGate); calling such a field is a release.
+func c13ReleaseClosureFields(p *Program, key string) map[string]bool {
+	out := map[string]bool{}
+	i := strings.LastIndex(key, ".")
+	rel, tname := key[:i], key[i+1:]
+	for _, fn := range p.FuncsIn(rel) {
+		for _, b := range fn.Blocks {
+			for _, in := range b.Instrs {
+				st, ok := in.(*ssa.Store)
+				if !ok {
+					continue
+				}
+				fa, ok := st.Addr.(*ssa.FieldAddr)
+				if !ok {
+					continue
+				}
+				n := NamedOf(fa.X.Type())
+				if n == nil || n.Obj().Name() != tname || RelPkg(n.Obj().Pkg()) != rel {
+					continue
+				}
+				for _, f := range c13FuncsOfValue(st.Val, 0) {
+					if mentionsGateDone(f) {
+						out[fieldName(fa.X.Type(), fa.Field)] = true
+					}
+				}
+			}
+		}
+	}
+	return out
+}
+
+func c13CalledField(c CallSite) string {
+	cc := c.Common()
+	if cc.IsInvoke() {
+		return ""
+	}
+	if u, ok := cc.Value.(*ssa.UnOp); ok && u.Op == token.MUL {
+		if fa, ok := u.X.(*ssa.FieldAddr); ok {
+			return fieldName(fa.X.Type(), fa.Field)
+		}
+	}
+	return ""
+}
+
+func ruleGGate(p *Program, r *Reporter, fns []*ssa.Function) {
+	e := newC13Pair(p, "G-gate", gateSpec.Acquire, gateSpec.Release)
+	e.holder = func(c CallSite, path string, leaks []Leak) *c13Class {
+		key := ""
+		for _, l := range leaks {
+			ret, ok := l.Exit.(*ssa.Return)
+			if !ok {
+				return nil
+			}
+			k := c13HolderKey(ret)
+			if k == "" || (key != "" && k != key) {
+				return nil
+			}
+			key = k
+		}
+		h := c13GateHolderTypes[key]
+		fields := c13ReleaseClosureFields(p, key)
+		// any gate, or the call of a release closure stored in the holder, counts in the release functions
+		he := newC13PairLike(e)
+		he.extraStop = func(c CallSite) bool { return fields[c13CalledField(c)] }
+		cl := &c13Class{kind: c13Holder, ok: true,
+			detail: "cross-function holder: the returned " + key + " owns the slot (" + h.reason + "); every recorded release function releases the gate on all its paths"}
+		for _, rf := range h.releaseIn {
+			f := p.LookupFunc(rf[0], rf[1], rf[2])
+			if f == nil || len(f.Blocks) == 0 {
+				cl.ok = false
+				cl.detail = fmt.Sprintf("cross-function holder %s, but its recorded release function %s.%s no longer exists: %s", key, rf[1], rf[2], h.reason)
+				continue
+			}
+			// the release function must release on EVERY path, assuming a gate is configured
+			assume := c13NilAssume("", func(v ssa.Value) bool {
+				if c13IsGateValue(v) {
+					return true
+				}
+				if u, ok := v.(*ssa.UnOp); ok && u.Op == token.MUL {
+					if fa, ok := u.X.(*ssa.FieldAddr); ok && fields[fieldName(fa.X.Type(), fa.Field)] {
+						return true
+					}
+				}
+				return false
+			})
+			if lk := he.entryLeaks(f, func(string) bool { return true }, assume, 0); len(lk) > 0 {
+				cl.ok = false
+				cl.detail = fmt.Sprintf("the slot taken here is to be released by %s, but that function has %d path(s) that return without releasing the gate (first: exit at line %d): a failed %s leaks the slot for good",
+					FuncKey(f), len(lk), p.Fset.Position(lk[0].Exit.Pos()).Line, c.Fn.Name())
+			}
+		}
+		return cl
+	}
+	n := e.scan(r, fns, func(c CallSite, a c13Acq) (string, bool) {
+		if a.via == nil && drainIdiom(c) {
+			return "drains all tokens of a function-local gate to join workers (capacity constant matches loop bound)", true
+		}
+		return "", false
+	})
+	r.Analysed("gate_start_sites", n)
+	r.Floor("G-gate", 20)
+}
+
+// newC13PairLike: a second engine over the same primitives with fresh
+// summaries (used with a rule-specific extraStop).
+func newC13PairLike(e *c13Pair) *c13Pair {
+	return &c13Pair{p: e.p, rule: e.rule, acquire: e.acquire, release: e.release,
+		mayRel: e.mayRel, mayAcq: e.mayAcq, noPrefilter: true,
+		relMemo: map[*ssa.Function][]string{}, relBusy: map[*ssa.Function]bool{},
+		acqMemo: map[*ssa.Function][]c13Held{}, acqBusy: map[*ssa.Function]bool{},
+		clsMemo: map[c13ClsKey]*c13Class{}, handMemo: map[*ssa.Function]int{}}
+}
+
+// drainIdiom recognises a counting loop of exactly N iterations around
+// g.Start() on a gate created in the same function by syncutil.NewGate(N)
+// (any loop form: `for range N`, `for i := 0; i < N; i++`, `N > i`, `i != N`).
 func drainIdiom(c CallSite) bool {
 	recv := originValue(c.Args()[0])
 	mk, ok := recv.(*ssa.Call)
 	if !ok || !(CallSite{mk.Parent(), mk}).IsStatic("go4.org/syncutil", "", "NewGate") {
 		return false
 	}
-	if TopFunc(mk.Parent()) != TopFunc(c.Fn) || c.Fn != mk.Parent() {
+	if c.Fn != mk.Parent() {
 		return false
 	}
 	capN, ok := ConstInt(mk.Call.Args[0])
 	if !ok {
 		return false
 	}
-	// the Start must sit in a loop body whose controlling comparison is against the same constant
 	b := c.Block()
+	if !inLoop(b) {
+		return false
+	}
 	for _, f := range FactsAt(b) {
-		if bo, ok := f.Cond.(*ssa.BinOp); ok && bo.Op == token.LSS && f.Val {
-			if n, ok := ConstInt(bo.Y); ok && n == capN && inLoop(b) {
+		bo, ok := f.Cond.(*ssa.BinOp)
+		if !ok {
+			continue
+		}
+		x, xc := ConstInt(bo.X)
+		y, yc := ConstInt(bo.Y)
+		switch {
+		case bo.Op == token.LSS && f.Val && yc && y == capN, // i < N
+			bo.Op == token.GTR && f.Val && xc && x == capN,                          // N > i
+			bo.Op == token.NEQ && f.Val && ((yc && y == capN) || (xc && x == capN)), // i != N
+			bo.Op == token.GEQ && !f.Val && yc && y == capN,                         // !(i >= N)
+			bo.Op == token.EQL && !f.Val && ((yc && y == capN) || (xc && x == capN)):
+			if c13CountsFromZero(bo, capN) {
 				return true
 			}
 		}
 	}
 	return false
+}
+
+// c13CountsFromZero: the non-constant operand of the loop test is an induction
+// variable that starts at 0 and is incremented by 1 (or the rotated guard
+// `0 < N` of a range-over-int loop).
+func c13CountsFromZero(bo *ssa.BinOp, capN int64) bool {
+	iv := bo.X
+	if n, ok := ConstInt(bo.X); ok {
+		if n == 0 {
+			return true // rotated guard `0 < N`
+		}
+		iv = bo.Y
+	}
+	// rotated loops test the incremented value: i+1 < N
+	if inc, ok := iv.(*ssa.BinOp); ok && inc.Op == token.ADD {
+		if one, ok := ConstInt(inc.Y); ok && one == 1 {
+			iv = inc.X
+		}
+	}
+	ph, ok := iv.(*ssa.Phi)
+	if !ok {
+		return false
+	}
+	zero, step := false, false
+	for _, e := range ph.Edges {
+		if n, ok := ConstInt(e); ok && n == 0 {
+			zero = true
+			continue
+		}
+		if inc, ok := e.(*ssa.BinOp); ok && inc.Op == token.ADD && inc.X == ssa.Value(ph) {
+			if one, ok := ConstInt(inc.Y); ok && one == 1 {
+				step = true
+				continue
+			}
+		}
+		return false
+	}
+	return zero && step
+}
+
+// mentionsGateDone reports whether fn (deep) calls (*Gate).Done or takes it as
+// a bound method value (once.Do(g.Done)).
+func mentionsGateDone(fn *ssa.Function) bool {
+	found := false
+	var walk func(f *ssa.Function)
+	walk = func(f *ssa.Function) {
+		for _, b := range f.Blocks {
+			for _, in := range b.Instrs {
+				switch x := in.(type) {
+				case ssa.CallInstruction:
+					if (CallSite{f, x}).IsStatic("go4.org/syncutil", "Gate", "Done") {
+						found = true
+					}
+				case *ssa.MakeClosure:
+					if real, _ := c13FuncOfValue(x); real != nil && funcIs(real, "go4.org/syncutil", "Gate", "Done") {
+						found = true
+					}
+				}
+			}
+		}
+		for _, a := range f.AnonFuncs {
+			walk(a)
+		}
+	}
+	walk(fn)
+	return found
 }
 
 // ---------------------------------------------------------------------------
@@ -288,66 +1135,15 @@ var lockSpec = &PairSpec{
 	},
 }
 
-// lockHolders are functions that deliberately return with a lock held.
-var lockHolders = map[string]string{}
-
 func ruleGLock(p *Program, r *Reporter, fns []*ssa.Function) {
-	ps := lockSpec
-	sums := ps.Summarize(fns)
-	acq := func(c CallSite) (string, bool) {
-		if pth, ok := ps.Acquire(c); ok {
-			return pth, true
-		}
-		if f := c.Callee(); f != nil {
-			if s := sums[f]; s != nil && len(s.Acquires) == 1 && isLockWrapper(f) {
-				return TranslatePath(c, f, s.Acquires[0])
-			}
+	e := newC13Pair(p, "G-lock", lockSpec.Acquire, lockSpec.Release)
+	e.trivial = isLockWrapper
+	n := e.scan(r, fns, func(c CallSite, a c13Acq) (string, bool) {
+		if a.via == nil && barrierLockIdiom(c) {
+			return "function-local mutex locked immediately before return as a barrier (frame-local, cannot be contended after return)", true
 		}
 		return "", false
-	}
-	rel := func(c CallSite) (string, bool) {
-		if pth, ok := ps.Release(c); ok {
-			return pth, true
-		}
-		if f := c.Callee(); f != nil {
-			if s := sums[f]; s != nil && len(s.Releases) == 1 && isLockWrapper(f) {
-				return TranslatePath(c, f, s.Releases[0])
-			}
-		}
-		return "", false
-	}
-	ext := &PairSpec{Rule: ps.Rule, Acquire: acq, Release: rel}
-	n := 0
-	for _, fn := range fns {
-		if IsTestSupportPkg(RelPkg(fn.Pkg.Pkg)) {
-			continue
-		}
-		for _, c := range CallsIn(fn, false) {
-			path, ok := acq(c)
-			if !ok || c.IsDefer() || c.IsGo() {
-				continue
-			}
-			n++
-			construct := FuncKey(fn) + "#" + path
-			site := p.Pos(c.Pos())
-			if fn.Parent() == nil && isLockWrapper(fn) {
-				if s := sums[fn]; s != nil && len(s.Acquires) > 0 {
-					r.OK("G-lock", construct, site, "acquiring wrapper (single-statement Lock method): obligation checked at each caller")
-					continue
-				}
-			}
-			if why, ok := lockHolders[FuncKey(fn)]; ok {
-				r.OKTable("G-lock", construct, site, "exception: "+why)
-				continue
-			}
-			if barrierLockIdiom(c) {
-				r.OK("G-lock", construct, site, "function-local mutex locked immediately before return as a barrier (frame-local, cannot be contended after return)")
-				continue
-			}
-			okp, detail := ext.CheckAcquire(c, path, nil)
-			r.Check(okp, "G-lock", construct, site, detail, detail)
-		}
-	}
+	})
 	r.Analysed("lock_sites", n)
 	r.Floor("G-lock", 100)
 }
@@ -389,118 +1185,47 @@ func isLockWrapper(fn *ssa.Function) bool {
 	return ok
 }
 
-// holderReleaseLeaks explores every path of a holder's release function
-// (CommitBatch, batchTx.Close, iter.Close) from entry, assuming a gate is
-// configured (`x.Gate != nil`, `t.releaseGate != nil` are true), and returns
-// the exits reached without a (deferred) Gate.Done or a call of the
-// release-closure field.
-func holderReleaseLeaks(f *ssa.Function) []Leak {
-	isGateish := func(v ssa.Value) bool {
-		t := v.Type()
-		if IsNamed(t, "go4.org/syncutil", "Gate") {
-			return true
-		}
-		if _, ok := t.Underlying().(*types.Signature); ok {
-			if u, ok := v.(*ssa.UnOp); ok && u.Op == token.MUL {
-				if fa, ok := u.X.(*ssa.FieldAddr); ok && fieldName(fa.X.Type(), fa.Field) == "releaseGate" {
-					return true
-				}
-			}
-		}
-		return false
-	}
-	assume := func(cond ssa.Value) (bool, bool) {
-		bo, ok := cond.(*ssa.BinOp)
-		if !ok || (bo.Op != token.NEQ && bo.Op != token.EQL) {
-			return false, false
-		}
-		var other ssa.Value
-		if IsNilConst(bo.Y) {
-			other = bo.X
-		} else if IsNilConst(bo.X) {
-			other = bo.Y
-		}
-		if other != nil && isGateish(other) {
-			return true, bo.Op == token.NEQ
-		}
-		return false, false
-	}
-	stop := func(in ssa.Instruction) bool {
-		ci, ok := in.(ssa.CallInstruction)
-		if !ok {
-			return false
-		}
-		c := CallSite{f, ci}
-		if c.IsStatic("go4.org/syncutil", "Gate", "Done") {
-			return true
-		}
-		cc := c.Common()
-		if !cc.IsInvoke() {
-			if u, ok := cc.Value.(*ssa.UnOp); ok && u.Op == token.MUL {
-				if fa, ok := u.X.(*ssa.FieldAddr); ok && fieldName(fa.X.Type(), fa.Field) == "releaseGate" {
-					return true
-				}
-			}
-		}
-		return false
-	}
-	first := f.Blocks[0].Instrs[0]
-	if stop(first) {
-		return nil
-	}
-	return LeakingExits(PathQuery{Start: first, Stop: stop, Assume: assume, IgnorePanics: true})
-}
-
-// mentionsGateDone reports whether fn (deep) calls (*Gate).Done or takes it as
-// a bound method value (once.Do(g.Done)).
-func mentionsGateDone(fn *ssa.Function) bool {
-	found := false
-	var walk func(f *ssa.Function)
-	walk = func(f *ssa.Function) {
-		for _, b := range f.Blocks {
-			for _, in := range b.Instrs {
-				switch x := in.(type) {
-				case ssa.CallInstruction:
-					if (CallSite{f, x}).IsStatic("go4.org/syncutil", "Gate", "Done") {
-						found = true
-					}
-				case *ssa.MakeClosure:
-					if bf, ok := x.Fn.(*ssa.Function); ok && strings.HasPrefix(bf.Synthetic, "bound method wrapper") && strings.Contains(bf.Name(), "Done") && strings.Contains(bf.String(), "syncutil.Gate") {
-						found = true
-					}
-				}
-			}
-		}
-		for _, a := range f.AnonFuncs {
-			walk(a)
-		}
-	}
-	walk(fn)
-	return found
-}
-
-// callsField reports whether fn calls a func-typed struct field named name.
-func callsField(fn *ssa.Function, name string) bool {
-	for _, c := range CallsIn(fn, true) {
-		cc := c.Common()
-		if cc.IsInvoke() {
-			continue
-		}
-		if u, ok := cc.Value.(*ssa.UnOp); ok && u.Op == token.MUL {
-			if fa, ok := u.X.(*ssa.FieldAddr); ok && fieldName(fa.X.Type(), fa.Field) == name {
-				return true
-			}
-		}
-	}
-	return false
-}
-
 // ---------------------------------------------------------------------------
-// G-rollback (typestate)
+// G-rollback (typestate over the effective body of diskpacked's ReceiveBlob)
+
+// c13FieldRef identifies a struct field by its owner type and index.
+type c13FieldRef struct {
+	owner *types.Named
+	idx   int
+}
+
+func (f c13FieldRef) name() string {
+	if st, ok := f.owner.Underlying().(*types.Struct); ok && f.idx < st.NumFields() {
+		return st.Field(f.idx).Name()
+	}
+	return "?"
+}
+
+func c13FieldOfAddr(addr ssa.Value) (c13FieldRef, bool) {
+	fa, ok := addr.(*ssa.FieldAddr)
+	if !ok {
+		return c13FieldRef{}, false
+	}
+	n := NamedOf(fa.X.Type())
+	if n == nil {
+		return c13FieldRef{}, false
+	}
+	return c13FieldRef{n, fa.Field}, true
+}
+
+// c13FieldLoad: v (after originValue) is a load of a struct field.
+func c13FieldLoad(v ssa.Value) (*ssa.UnOp, c13FieldRef, bool) {
+	ld, ok := v.(*ssa.UnOp)
+	if !ok || ld.Op != token.MUL {
+		return nil, c13FieldRef{}, false
+	}
+	f, ok := c13FieldOfAddr(ld.X)
+	return ld, f, ok
+}
 
 // fieldWriters returns the functions of package rel that may (transitively,
-// through static calls inside the package) store to field fld of struct type
-// typeName.
+// through static calls and function literals inside the package) store to field
+// fld of struct type typeName.
 func fieldWriters(p *Program, rel, typeName, fld string) map[*ssa.Function]bool {
 	fns := p.FuncsIn(rel)
 	direct := map[*ssa.Function]bool{}
@@ -511,17 +1236,16 @@ func fieldWriters(p *Program, rel, typeName, fld string) map[*ssa.Function]bool 
 				if !ok {
 					continue
 				}
-				fa, ok := st.Addr.(*ssa.FieldAddr)
+				f, ok := c13FieldOfAddr(st.Addr)
 				if !ok {
 					continue
 				}
-				if n := NamedOf(fa.X.Type()); n != nil && n.Obj().Name() == typeName && RelPkg(n.Obj().Pkg()) == rel && fieldName(fa.X.Type(), fa.Field) == fld {
+				if f.owner.Obj().Name() == typeName && RelPkg(f.owner.Obj().Pkg()) == rel && f.name() == fld {
 					direct[fn] = true
 				}
 			}
 		}
 	}
-	// transitive closure over static callees within the package
 	changed := true
 	for changed {
 		changed = false
@@ -530,7 +1254,16 @@ func fieldWriters(p *Program, rel, typeName, fld string) map[*ssa.Function]bool 
 				continue
 			}
 			for _, c := range CallsIn(fn, true) {
+				hit := false
+				for _, t := range c13CallTargets(c) {
+					if direct[t.fn] {
+						hit = true
+					}
+				}
 				if f := c.Callee(); f != nil && direct[f] {
+					hit = true
+				}
+				if hit {
 					direct[fn] = true
 					changed = true
 					break
@@ -541,81 +1274,434 @@ func fieldWriters(p *Program, rel, typeName, fld string) map[*ssa.Function]bool 
 	return direct
 }
 
+// c13Chain is a path of static same-package calls from a root function down to
+// an instruction: funcs[0] is the root, calls[i] (in funcs[i]) runs funcs[i+1],
+// at lies in funcs[len(calls)].
+type c13Chain struct {
+	funcs []*ssa.Function
+	calls []CallSite
+	at    CallSite
+}
+
+// instrAt: the instruction through which the chain passes in funcs[level].
+func (ch *c13Chain) instrAt(level int) ssa.Instruction {
+	if level < len(ch.calls) {
+		return ch.calls[level].Instr
+	}
+	return ch.at.Instr
+}
+
+func (ch *c13Chain) levelOf(fn *ssa.Function) int {
+	for i, f := range ch.funcs {
+		if f == fn {
+			return i
+		}
+	}
+	return -1
+}
+
+// c13Down enumerates, over the effective body of root (root plus, transitively
+// up to depth, the same-package functions and literals its instructions run),
+// the call instructions satisfying pred, each with the chain leading to it.
+func c13Down(root *ssa.Function, depth int, pred func(CallSite) bool) []c13Chain {
+	var out []c13Chain
+	var walk func(fn *ssa.Function, funcs []*ssa.Function, calls []CallSite)
+	walk = func(fn *ssa.Function, funcs []*ssa.Function, calls []CallSite) {
+		funcs = append(append([]*ssa.Function(nil), funcs...), fn)
+		for _, c := range CallsIn(fn, false) {
+			if pred(c) {
+				out = append(out, c13Chain{funcs: funcs, calls: append([]CallSite(nil), calls...), at: c})
+			}
+			if len(calls) >= depth {
+				continue
+			}
+			for _, t := range c13CallTargets(c) {
+				if TopFunc(t.fn).Pkg != TopFunc(root).Pkg {
+					continue
+				}
+				rec := false
+				for _, f := range funcs {
+					if f == t.fn {
+						rec = true
+					}
+				}
+				if rec {
+					continue
+				}
+				walk(t.fn, funcs, append(append([]CallSite(nil), calls...), c))
+			}
+		}
+	}
+	walk(root, nil, nil)
+	return out
+}
+
+// c13ArgUp maps parameter prm of funcs[level] to the argument the chain's call
+// passes for it (level > 0).
+func c13ArgUp(ch *c13Chain, level int, prm *ssa.Parameter) (ssa.Value, bool) {
+	if level <= 0 || level > len(ch.calls) {
+		return nil, false
+	}
+	c := ch.calls[level-1]
+	for _, t := range c13CallTargets(c) {
+		if t.fn != ch.funcs[level] {
+			continue
+		}
+		for i, q := range t.fn.Params {
+			if q == prm && i < len(t.args) {
+				return t.args[i], true
+			}
+		}
+	}
+	return nil, false
+}
+
+// c13Origin follows v (a value of funcs[level]) through parameters up the
+// chain; it returns the level and the origin value where it stops.
+func c13Origin(ch *c13Chain, level int, v ssa.Value) (int, ssa.Value) {
+	for i := 0; i < 16; i++ {
+		o := originValue(v)
+		prm, ok := o.(*ssa.Parameter)
+		if !ok {
+			// a captured parameter of an enclosing literal/function resolves by itself (originValue)
+			return level, o
+		}
+		if prm.Parent() != ch.funcs[level] {
+			// parameter of an enclosing function captured by a literal: find that function's level
+			l := ch.levelOf(prm.Parent())
+			if l < 0 {
+				return level, o
+			}
+			level = l
+		}
+		a, ok := c13ArgUp(ch, level, prm)
+		if !ok {
+			return level, o
+		}
+		v, level = a, level-1
+	}
+	return level, v
+}
+
+// c13Getter: fn's every return yields (as result 0) a load of one and the
+// same field of its receiver / parameter.
+func c13Getter(fn *ssa.Function) (c13FieldRef, bool) {
+	if fn == nil || len(fn.Blocks) == 0 || fn.Signature.Results().Len() != 1 {
+		return c13FieldRef{}, false
+	}
+	var got c13FieldRef
+	n := 0
+	for _, ri := range Returns(fn) {
+		_, f, ok := c13FieldLoad(originValue(ri.Results[0]))
+		if !ok || (n > 0 && f != got) {
+			return c13FieldRef{}, false
+		}
+		got = f
+		n++
+	}
+	for _, b := range fn.Blocks {
+		for _, in := range b.Instrs {
+			if _, isStore := in.(*ssa.Store); isStore {
+				return c13FieldRef{}, false
+			}
+		}
+	}
+	return got, n > 0
+}
+
+// c13SegmentBad looks, in fn, for an instruction satisfying bad that lies on a
+// path from `from` (nil: the function entry) to `to`.
+func c13SegmentBad(fn *ssa.Function, from, to ssa.Instruction, bad func(ssa.Instruction) bool) ssa.Instruction {
+	var reach map[ssa.Instruction]bool
+	if from != nil {
+		reach = ReachableFrom(from, nil)
+	}
+	for _, b := range fn.Blocks {
+		for _, in := range b.Instrs {
+			if in == to || in == from || !bad(in) {
+				continue
+			}
+			if reach != nil && !reach[in] {
+				continue
+			}
+			if to == nil || ReachableFrom(in, nil)[to] {
+				return in
+			}
+		}
+	}
+	return nil
+}
+
+// c13BetweenBad checks every segment of the chain between position (la, ia) and
+// the later position (lb, ib), la <= lb.
+func c13BetweenBad(ch *c13Chain, la int, ia ssa.Instruction, lb int, ib ssa.Instruction, bad func(ssa.Instruction) bool) ssa.Instruction {
+	if la == lb {
+		if x := c13SegmentBad(ch.funcs[la], ia, ib, bad); x != nil {
+			return x
+		}
+		return nil
+	}
+	if x := c13SegmentBad(ch.funcs[la], ia, ch.instrAt(la), bad); x != nil {
+		return x
+	}
+	for l := la + 1; l < lb; l++ {
+		if x := c13SegmentBad(ch.funcs[l], nil, ch.instrAt(l), bad); x != nil {
+			return x
+		}
+	}
+	return c13SegmentBad(ch.funcs[lb], nil, ib, bad)
+}
+
+type c13UpdateSite struct {
+	call *ssa.Call
+	ev   ssa.Value
+	disc bool
+}
+
 func ruleGRollback(p *Program, r *Reporter) {
 	const rel = "pkg/blobserver/diskpacked"
-	fn := p.Func(rel, "storage", "append")
-	writers := fieldWriters(p, rel, "storage", "writer")
-	// undo calls: (*os.File).Truncate / Seek whose offset argument is a value
-	// loaded from s.size (the captured original offset)
-	var undo []CallSite
-	var capture ssa.Instruction
-	for _, c := range CallsIn(fn, false) {
-		if !(c.IsStatic("os", "File", "Truncate") || c.IsStatic("os", "File", "Seek")) {
-			continue
-		}
-		off := originValue(c.Args()[1])
-		ld, ok := off.(*ssa.UnOp)
-		if !ok || ld.Op != token.MUL {
-			continue
-		}
-		fa, ok := ld.X.(*ssa.FieldAddr)
-		if !ok || fieldName(fa.X.Type(), fa.Field) != "size" {
-			continue
-		}
-		undo = append(undo, c)
-		capture = ld
+	const rule = "G-rollback"
+	r.Floor(rule, 3)
+	// the property's entry point; everything else is located by role in its effective body
+	entry := p.Func(rel, "storage", "ReceiveBlob")
+
+	// (1) the index update after the data write: sorted.KeyValue.Set
+	sets := c13Down(entry, 4, func(c CallSite) bool {
+		return c.Common().IsInvoke() && c.MethodName() == "Set" && c.Value() != nil && strings.HasSuffix(typeKey(c.RecvType()), "sorted.KeyValue")
+	})
+	if len(sets) == 0 {
+		brokenf("anchor unresolved: no sorted.KeyValue.Set in the effective body of diskpacked.(*storage).ReceiveBlob")
 	}
-	if len(undo) == 0 || capture == nil {
-		r.Violation("G-rollback", FuncKey(fn)+"#undo", p.Pos(fn.Pos()),
+	fs := sets[0].at.Fn // the function that updates the index (today: append)
+	fk := FuncKey(TopFunc(fs))
+	// update sites: the Set call, and - when the update is wrapped - the calls of
+	// wrappers that succeed only if the Set succeeded
+	updates := map[*ssa.Function][]c13UpdateSite{}
+	var addUpdate func(call *ssa.Call, depth int)
+	addUpdate = func(call *ssa.Call, depth int) {
+		ev, _, disc := ErrValue(call)
+		fn := call.Parent()
+		updates[fn] = append(updates[fn], c13UpdateSite{call, ev, disc})
+		if depth >= 3 || fn.Parent() != nil || fn == entry || disc || ev == nil || ErrResultIndex(fn) < 0 {
+			return
+		}
+		for _, nr := range MaybeNilErrorReturns(fn) {
+			if sameOrigin(nr.Val, ev) {
+				continue
+			}
+			at := nr.From.Instrs[len(nr.From.Instrs)-1]
+			if ok, _ := SuccessDominates(call, at); !ok {
+				return // fn may report success although the update failed or did not run
+			}
+		}
+		for _, cs := range p.StaticCallers(fn) {
+			if cs.Value() != nil && TopFunc(cs.Fn).Pkg == fn.Pkg {
+				addUpdate(cs.Value(), depth+1)
+			}
+		}
+	}
+	for _, s := range sets {
+		addUpdate(s.at.Value(), 0)
+	}
+	// failing(in): in lies where some index update of its function is known to have failed
+	failing := func(in ssa.Instruction) bool {
+		for _, u := range updates[in.Parent()] {
+			if u.ev == nil || u.disc {
+				continue
+			}
+			if k, isNil := NilFact(in.Block(), u.ev); k && !isNil {
+				return true
+			}
+		}
+		return false
+	}
+
+	// (2) the undo: Seek/Truncate on an *os.File whose offset is a capture, i.e.
+	// the value a size-tracking field had before the append advanced it
+	fileOps := c13Down(entry, 5, func(c CallSite) bool {
+		return (c.IsStatic("os", "File", "Truncate") || c.IsStatic("os", "File", "Seek")) && !c.IsDefer() && !c.IsGo()
+	})
+	// fields stored in the effective body of the entry point ("advanced by the append path")
+	stored := map[c13FieldRef]bool{}
+	var bodyFns []*ssa.Function
+	seenFn := map[*ssa.Function]bool{}
+	for _, ch := range c13Down(entry, 5, func(CallSite) bool { return true }) {
+		for _, f := range ch.funcs {
+			if !seenFn[f] {
+				seenFn[f] = true
+				bodyFns = append(bodyFns, f)
+			}
+		}
+	}
+	for _, f := range bodyFns {
+		for _, b := range f.Blocks {
+			for _, in := range b.Instrs {
+				if st, ok := in.(*ssa.Store); ok {
+					if fr, ok := c13FieldOfAddr(st.Addr); ok {
+						stored[fr] = true
+					}
+				}
+			}
+		}
+	}
+	writerCache := map[c13FieldRef]map[*ssa.Function]bool{}
+	writersOf := func(f c13FieldRef) map[*ssa.Function]bool {
+		if w, ok := writerCache[f]; ok {
+			return w
+		}
+		w := fieldWriters(p, RelPkg(f.owner.Obj().Pkg()), f.owner.Obj().Name(), f.name())
+		writerCache[f] = w
+		return w
+	}
+	// mayWrite(f): instruction stores to field f or runs a function that (transitively) does
+	mayWrite := func(f c13FieldRef) func(ssa.Instruction) bool {
+		w := writersOf(f)
+		return func(in ssa.Instruction) bool {
+			switch x := in.(type) {
+			case *ssa.Store:
+				fr, ok := c13FieldOfAddr(x.Addr)
+				return ok && fr == f
+			case ssa.CallInstruction:
+				c := CallSite{in.Parent(), x}
+				if g := c.Callee(); g != nil && w[g] {
+					return true
+				}
+				for _, t := range c13CallTargets(c) {
+					if w[t.fn] {
+						return true
+					}
+				}
+			}
+			return false
+		}
+	}
+
+	nUndo, goodTrunc := 0, 0
+	truncOnFailure := false
+	var firstTrunc *c13Chain
+	for i := range fileOps {
+		ch := &fileOps[i]
+		u := ch.at
+		bottom := len(ch.calls)
+		// offset: through parameters up the chain to a field load or a getter call
+		lvl, o := c13Origin(ch, bottom, u.Args()[1])
+		var capAt ssa.Instruction
+		var sizeF c13FieldRef
+		if ld, f, ok := c13FieldLoad(o); ok {
+			capAt, sizeF = ld, f
+		} else if call, ok := o.(*ssa.Call); ok {
+			if g := call.Call.StaticCallee(); g != nil && TopFunc(g).Pkg == TopFunc(entry).Pkg {
+				if f, ok := c13Getter(g); ok {
+					capAt, sizeF = call, f
+				}
+			}
+		}
+		if capAt != nil {
+			// a value captured by a literal resolves in the function that declares the variable
+			lvl = ch.levelOf(capAt.Parent())
+		}
+		if capAt == nil || !stored[sizeF] || lvl < 0 {
+			continue // not an undo: the offset is not the remembered value of a field the append advances
+		}
+		nUndo++
+		construct := fk + "#" + u.MethodName()
+		site := p.Pos(u.Pos())
+		// (2a) the capture predates every advance of that field on the way down the chain
+		sizeWrite := mayWrite(sizeF)
+		if x := c13BetweenBad(ch, 0, nil, lvl, capAt, sizeWrite); x != nil {
+			r.Violation(rule, construct, site, fmt.Sprintf("the offset this %s rewinds to is read from %s at line %d, after the append already advanced it (line %d): the rollback leaves the first bytes of the failed append (the blob header) in the pack",
+				u.MethodName(), sizeF.name(), p.Fset.Position(capAt.Pos()).Line, p.Fset.Position(x.Pos()).Line))
+			continue
+		}
+		// (2b) the file: the receiver, through parameters, is a load of a file field;
+		// no (transitive) writer of that field between the capture and that load / the undo
+		flvl, fo := c13Origin(ch, bottom, u.Args()[0])
+		fld, fileF, ok := c13FieldLoad(fo)
+		if ok {
+			flvl = ch.levelOf(fld.Parent())
+		}
+		if !ok || flvl < 0 {
+			r.Undecided(rule, construct, site, "the file this undo acts on is not read from a field of the storage: cannot tell whether it is the pack file the offset was captured from")
+			continue
+		}
+		fileWrite := mayWrite(fileF)
+		var bad ssa.Instruction
+		// order the two reads along the chain
+		capFirst := lvl < flvl || (lvl == flvl && !(ReachableFrom(fld, nil)[capAt] && !ReachableFrom(capAt, nil)[fld]))
+		if capFirst {
+			bad = c13BetweenBad(ch, lvl, capAt, flvl, fld, fileWrite)
+		} else {
+			bad = c13BetweenBad(ch, flvl, fld, lvl, capAt, fileWrite)
+		}
+		if bad == nil {
+			// from the later of the two reads down to the undo call itself
+			l0, i0 := flvl, ssa.Instruction(fld)
+			if !capFirst {
+				l0, i0 = lvl, capAt
+			}
+			bad = c13BetweenBad(ch, l0, i0, bottom, u.Instr, fileWrite)
+		}
+		msg := ""
+		if bad != nil {
+			what := "an instruction"
+			if ci, ok := bad.(ssa.CallInstruction); ok {
+				what = (CallSite{bad.Parent(), ci}).CalleeKey()
+			}
+			msg = fmt.Sprintf("%s (line %d) may replace s.%s between the capture of the undo offset and the undo at line %d: the rollback would act on a different pack file",
+				what, p.Fset.Position(bad.Pos()).Line, fileF.name(), p.Fset.Position(u.Pos()).Line)
+		}
+		if u.IsStatic("os", "File", "Truncate") {
+			// (2c) a rollback to the old end of file may only run where the append fails:
+			// at the nearest level of the chain that returns an error, every exit
+			// reachable from the undo reports one
+			if msg == "" {
+				decided := false
+				for l := bottom; l >= 0 && !decided; l-- {
+					f := ch.funcs[l]
+					if f.Parent() != nil || ErrResultIndex(f) < 0 {
+						continue
+					}
+					decided = true
+					maybeNil := map[ssa.Instruction]bool{}
+					for _, nr := range MaybeNilErrorReturns(f) {
+						maybeNil[nr.Ret] = true
+					}
+					for _, x := range LeakingExits(PathQuery{Start: ch.instrAt(l), Stop: func(ssa.Instruction) bool { return false }, IgnorePanics: true}) {
+						if maybeNil[x.Exit] {
+							msg = fmt.Sprintf("after this Truncate back to the pre-append offset, %s can still return a nil error (line %d): an acknowledged blob's bytes are cut off the pack",
+								FuncKey(f), p.Fset.Position(x.Exit.Pos()).Line)
+						}
+					}
+				}
+				if !decided {
+					msg = "no function on the call path of this Truncate returns an error: cannot tell that the rollback runs only for a failing append"
+				}
+			}
+			if msg == "" {
+				goodTrunc++
+				if firstTrunc == nil {
+					firstTrunc = ch
+				}
+				for l := 0; l <= bottom; l++ {
+					if failing(ch.instrAt(l)) {
+						truncOnFailure = true
+					}
+				}
+			}
+		}
+		r.Check(msg == "", rule, construct, site,
+			"offset captured before the append advances s."+sizeF.name()+"; no (transitive) writer of s."+fileF.name()+" lies on any path between the capture and this undo call (helpers followed)", msg)
+	}
+	if goodTrunc == 0 {
+		r.Violation(rule, fk+"#undo", p.Pos(fs.Pos()),
 			"append no longer seeks/truncates back to an offset captured from s.size before writing: a failed index update would leave the blob bytes in the pack")
-		r.Floor("G-rollback", 1)
 		return
 	}
-	after := ReachableFrom(capture, nil)
-	n := 0
-	for _, u := range undo {
-		n++
-		bad := ""
-		for _, c := range CallsIn(fn, false) {
-			if !after[c.Instr] || c.Instr == u.Instr {
-				continue
-			}
-			f := c.Callee()
-			if f == nil || !writers[f] {
-				continue
-			}
-			// is the undo reachable after this call?
-			if ReachableFrom(c.Instr, nil)[u.Instr] {
-				bad = fmt.Sprintf("%s (line %d) may replace s.writer between the capture of the undo offset and the undo at line %d: the rollback would act on a different pack file",
-					FuncKey(f), p.Fset.Position(c.Pos()).Line, p.Fset.Position(u.Pos()).Line)
-			}
-		}
-		r.Check(bad == "", "G-rollback", FuncKey(fn)+"#"+u.MethodName(), p.Pos(u.Pos()),
-			"no (transitive) writer of s.writer lies on any path between the capture of the offset and this undo call", bad)
-	}
-	// the undo must be reached on the failure edge of the index update
-	var idxSet *ssa.Call
-	for _, c := range CallsIn(fn, false) {
-		if c.Common().IsInvoke() && c.MethodName() == "Set" && c.Value() != nil && strings.HasSuffix(typeKey(c.RecvType()), "sorted.KeyValue") {
-			idxSet = c.Value()
-		}
-	}
-	if idxSet == nil {
-		brokenf("anchor unresolved: index.Set call in diskpacked.append")
-	}
-	ev, _, discarded := ErrValue(idxSet)
-	okUndo := !discarded
-	for _, u := range undo {
-		if c := u; c.IsStatic("os", "File", "Truncate") {
-			k, isNil := NilFact(c.Block(), ev)
-			if !(k && !isNil) {
-				okUndo = false
-			}
-		}
-	}
-	r.Check(okUndo, "G-rollback", FuncKey(fn)+"#undo-on-index-failure", p.Pos(idxSet.Pos()),
-		"the truncate undo is on the err!=nil edge of index.Set", "the truncate undo is not (only) on the failure edge of index.Set")
-	r.Floor("G-rollback", 3)
+	site := p.Pos(sets[0].at.Pos())
+	r.Check(truncOnFailure, rule, fk+"#undo-on-index-failure", site,
+		"the truncate undo is reached on the err!=nil edge of the index update (index.Set, or a wrapper that succeeds only if Set did)",
+		"no truncate undo lies on the failure edge of the index update: a failed index.Set leaves the unindexed blob bytes in the pack")
+	r.Analysed("rollback_undo_calls", nUndo)
 }
 
 // ---------------------------------------------------------------------------
@@ -630,7 +1716,7 @@ func ruleGTmp(p *Program, r *Reporter) { ruleGTmpImpl(p, r, "G-tmp") }
 var errvalExceptions = map[string]string{
 	"pkg/sorted.NewKeyValue": "returns a usable store together with NeedWipeError by contract",
 	"iface:github.com/aws/aws-sdk-go/service/s3/s3iface.S3API.GetObjectWithContext": "aws-sdk-go request methods always return a non-nil output struct, also with an error",
-	"github.com/rwcarlsen/goexif/exif.Decode":                                        "goexif returns a usable *Exif together with non-critical errors; FileTime filters critical ones with IsCriticalError first",
+	"github.com/rwcarlsen/goexif/exif.Decode":                                       "goexif returns a usable *Exif together with non-critical errors; FileTime filters critical ones with IsCriticalError first",
 }
 
 var scopeErrval = []string{"pkg/blobserver", "pkg/sorted", "pkg/index", "pkg/schema", "pkg/server", "pkg/search", "pkg/jsonsign", "pkg/blob"}
@@ -799,18 +1885,219 @@ func sameBlockBeforeTest(use ssa.Instruction, ev ssa.Value) bool { return false 
 // ---------------------------------------------------------------------------
 // G-chan
 
+// c13ChanFlow follows one channel (made at mk) through the effective body of
+// the function that makes it: literals (captured variables), static calls, go
+// statements and spawner arguments that pass it on as an argument (the
+// callee's parameter then stands for the channel), and - one level up - the
+// callers of a function that returns it.
+type c13ChanFlow struct {
+	mk      *ssa.MakeChan
+	alias   map[ssa.Value]bool          // parameters / call results that stand for the channel
+	funcs   map[*ssa.Function]bool      // functions examined
+	order   []*ssa.Function             // deterministic iteration order
+	callers map[*ssa.Function][]c13Edge // how a non-literal function of the flow is entered
+}
+
+type c13Edge struct {
+	site  CallSite
+	async bool
+}
+
+func (cf *c13ChanFlow) is(v ssa.Value) bool {
+	o := originValue(v)
+	return o == ssa.Value(cf.mk) || cf.alias[o]
+}
+
+func (cf *c13ChanFlow) addFunc(f *ssa.Function) bool {
+	if f == nil || len(f.Blocks) == 0 || cf.funcs[f] {
+		return false
+	}
+	cf.funcs[f] = true
+	cf.order = append(cf.order, f)
+	for _, a := range f.AnonFuncs {
+		cf.addFunc(a)
+	}
+	return true
+}
+
+func c13FollowChan(p *Program, top *ssa.Function, mk *ssa.MakeChan) *c13ChanFlow {
+	cf := &c13ChanFlow{mk: mk, alias: map[ssa.Value]bool{}, funcs: map[*ssa.Function]bool{}, callers: map[*ssa.Function][]c13Edge{}}
+	cf.addFunc(top)
+	seenEdge := map[ssa.Instruction]map[*ssa.Function]bool{}
+	for round := 0; round < 6; round++ {
+		changed := false
+		for i := 0; i < len(cf.order); i++ {
+			f := cf.order[i]
+			// a function that returns the channel: its static callers see it as the call's value
+			if f.Parent() == nil {
+				for _, ri := range Returns(f) {
+					for ridx, res := range ri.Results {
+						if !cf.is(res) {
+							continue
+						}
+						for _, cs := range p.StaticCallers(f) {
+							call := cs.Value()
+							if call == nil {
+								continue
+							}
+							if v := ResultValue(call, ridx); v != nil && !cf.alias[v] {
+								cf.alias[v] = true
+								cf.addFunc(TopFunc(cs.Fn))
+								changed = true
+							}
+						}
+					}
+				}
+			}
+			for _, c := range CallsIn(f, false) {
+				for _, t := range c13CallTargets(c) {
+					if !InModule(TopFunc(t.fn)) {
+						continue
+					}
+					passes := false
+					for j, a := range t.args {
+						if j < len(t.fn.Params) && cf.is(a) {
+							if !cf.alias[t.fn.Params[j]] {
+								cf.alias[t.fn.Params[j]] = true
+								changed = true
+							}
+							passes = true
+						}
+					}
+					if t.fn.Parent() == nil && (passes || cf.funcs[t.fn]) {
+						if cf.addFunc(t.fn) {
+							changed = true
+						}
+						if seenEdge[c.Instr] == nil {
+							seenEdge[c.Instr] = map[*ssa.Function]bool{}
+						}
+						if !seenEdge[c.Instr][t.fn] {
+							seenEdge[c.Instr][t.fn] = true
+							cf.callers[t.fn] = append(cf.callers[t.fn], c13Edge{c, t.async})
+						}
+					}
+				}
+			}
+		}
+		if !changed {
+			break
+		}
+	}
+	return cf
+}
+
+// spawnRoots: the goroutines in which function f (of the flow) may run - each
+// as the function started asynchronously plus whether that start sits in a
+// loop. Empty when f only ever runs in the goroutine of the channel's maker.
+func (cf *c13ChanFlow) spawnRoots(f *ssa.Function, depth int, out map[*ssa.Function]bool) {
+	if f == nil || depth > 8 {
+		return
+	}
+	if f.Parent() != nil {
+		par := f.Parent()
+		for _, c := range CallsIn(par, false) {
+			for _, t := range c13CallTargets(c) {
+				if t.fn == f && t.async {
+					out[f] = out[f] || cf.manyStarts(c)
+					return
+				}
+			}
+		}
+		// called, deferred or passed as a callback: runs with its parent
+		cf.spawnRoots(par, depth+1, out)
+		return
+	}
+	for _, e := range cf.callers[f] {
+		if e.async {
+			out[f] = out[f] || cf.manyStarts(e.site)
+			continue
+		}
+		cf.spawnRoots(e.site.Fn, depth+1, out)
+	}
+}
+
+// manyStarts: the asynchronous start at c may run several times for ONE
+// channel: it sits in a loop, unless the channel is made afresh in every
+// iteration of that same loop.
+func (cf *c13ChanFlow) manyStarts(c CallSite) bool {
+	b := c.Block()
+	if !inLoop(b) {
+		return false
+	}
+	if cf.mk.Parent() != c.Fn {
+		return true
+	}
+	// is there a cycle through b that does not pass the make?
+	mb := cf.mk.Block()
+	if mb == b {
+		return false
+	}
+	seen := map[*ssa.BasicBlock]bool{mb: true}
+	var walk func(x *ssa.BasicBlock) bool
+	walk = func(x *ssa.BasicBlock) bool {
+		for _, s := range x.Succs {
+			if s == b {
+				return true
+			}
+			if !seen[s] {
+				seen[s] = true
+				if walk(s) {
+					return true
+				}
+			}
+		}
+		return false
+	}
+	return walk(b)
+}
+
+// joinedBefore: a join (Wait/Err of a group) precedes instruction in within its
+// function, or - for a function entered by synchronous calls only - precedes
+// every such call.
+func (cf *c13ChanFlow) joinedBefore(in ssa.Instruction, depth int) bool {
+	f := in.Parent()
+	for _, c := range CallsIn(f, false) {
+		if isJoin(c) && !c.IsGo() && !c.IsDefer() && Precedes(c.Instr, in) {
+			return true
+		}
+	}
+	if depth > 4 {
+		return false
+	}
+	if f.Parent() != nil {
+		// a literal called in place (not spawned, not deferred): the join may precede the call
+		par := f.Parent()
+		for _, c := range CallsIn(par, false) {
+			if c.IsGo() || c.IsDefer() || c.Value() == nil {
+				continue
+			}
+			if c.Callee() == f {
+				return cf.joinedBefore(c.Instr, depth+1)
+			}
+		}
+		return false
+	}
+	edges := cf.callers[f]
+	if len(edges) == 0 {
+		return false
+	}
+	for _, e := range edges {
+		if e.async || e.site.IsDefer() || !cf.joinedBefore(e.site.Instr, depth+1) {
+			return false
+		}
+	}
+	return true
+}
+
 func ruleGChan(p *Program, r *Reporter) {
 	n := 0
 	for _, fn := range p.FuncsUnder(scopeC13...) {
 		if fn.Parent() != nil || IsTestSupportPkg(RelPkg(fn.Pkg.Pkg)) {
 			continue
 		}
-		// channels made in this function (or its literals)
 		var makes []*ssa.MakeChan
-		var all []*ssa.Function
 		var collect func(f *ssa.Function)
 		collect = func(f *ssa.Function) {
-			all = append(all, f)
 			for _, b := range f.Blocks {
 				for _, in := range b.Instrs {
 					if mc, ok := in.(*ssa.MakeChan); ok {
@@ -824,45 +2111,37 @@ func ruleGChan(p *Program, r *Reporter) {
 		}
 		collect(fn)
 		for _, mc := range makes {
-			// senders: literals spawned asynchronously that send on mc
-			senders := map[*ssa.Function]bool{}
-			multi := false
+			cf := c13FollowChan(p, fn, mc)
+			roots := map[*ssa.Function]bool{} // sender goroutine -> started in a loop
 			var closes []CallSite
-			for _, f := range all {
+			for _, f := range cf.order {
 				for _, b := range f.Blocks {
 					for _, in := range b.Instrs {
 						switch x := in.(type) {
 						case *ssa.Send:
-							if originValue(x.Chan) == ssa.Value(mc) {
-								if sp, loop := spawnedAncestor(f); sp != nil {
-									senders[sp] = true
-									if loop {
-										multi = true
-									}
-								}
+							if cf.is(x.Chan) {
+								cf.spawnRoots(f, 0, roots)
 							}
 						case *ssa.Select:
 							for _, st := range x.States {
-								if st.Dir == types.SendOnly && originValue(st.Chan) == ssa.Value(mc) {
-									if sp, loop := spawnedAncestor(f); sp != nil {
-										senders[sp] = true
-										if loop {
-											multi = true
-										}
-									}
+								if st.Dir == types.SendOnly && cf.is(st.Chan) {
+									cf.spawnRoots(f, 0, roots)
 								}
 							}
 						case ssa.CallInstruction:
 							c := CallSite{f, x}
-							if b, ok := c.Common().Value.(*ssa.Builtin); ok && b.Name() == "close" && originValue(c.Common().Args[0]) == ssa.Value(mc) {
+							if b, ok := c.Common().Value.(*ssa.Builtin); ok && b.Name() == "close" && cf.is(c.Common().Args[0]) {
 								closes = append(closes, c)
 							}
 						}
 					}
 				}
 			}
-			if len(senders) >= 2 {
-				multi = true
+			multi := len(roots) >= 2
+			for _, loop := range roots {
+				if loop {
+					multi = true
+				}
 			}
 			if !multi || len(closes) == 0 {
 				continue
@@ -870,14 +2149,19 @@ func ruleGChan(p *Program, r *Reporter) {
 			for _, cl := range closes {
 				n++
 				construct := FuncKey(fn) + "#" + chanName(mc)
-				ok := false
-				// close preceded by a join in the same function/literal
-				for _, c := range CallsIn(cl.Fn, false) {
-					if isJoin(c) && Precedes(c.Instr, cl.Instr) {
-						ok = true
-					}
+				ok := !cl.IsGo() && cf.joinedBefore(cl.Instr, 0)
+				if !ok && cl.IsDefer() {
+					// `defer close(ch)` runs at the function's exits: every path from the
+					// defer to an exit must pass a join
+					ok = len(LeakingExits(PathQuery{Start: cl.Instr, IgnorePanics: true, Stop: func(in ssa.Instruction) bool {
+						ci, isCall := in.(ssa.CallInstruction)
+						if !isCall {
+							return false
+						}
+						j := CallSite{in.Parent(), ci}
+						return isJoin(j) && !j.IsGo() && !j.IsDefer()
+					}})) == 0
 				}
-				// a literal reached only through a call that is itself preceded by a join is not followed (bound 0)
 				r.Check(ok, "G-chan", construct, p.Pos(cl.Pos()),
 					"channel with several sender goroutines is closed only after a join (Wait/Err) of the group that runs them",
 					fmt.Sprintf("close(%s) is not preceded by a join of the sender goroutines: a sender still running panics with 'send on closed channel'", chanName(mc)))
@@ -896,9 +2180,6 @@ func chanName(mc *ssa.MakeChan) string {
 					return al.Comment
 				}
 			}
-			if d, ok := u.(*ssa.DebugRef); ok {
-				_ = d
-			}
 		}
 	}
 	return "chan"
@@ -907,20 +2188,4 @@ func chanName(mc *ssa.MakeChan) string {
 func isJoin(c CallSite) bool {
 	return c.IsStatic("sync", "WaitGroup", "Wait") || c.IsStatic("go4.org/syncutil", "Group", "Wait") ||
 		c.IsStatic("go4.org/syncutil", "Group", "Err") || c.IsStatic("golang.org/x/sync/errgroup", "Group", "Wait")
-}
-
-// spawnedAncestor returns the nearest enclosing literal of f (or f itself)
-// that is started asynchronously, and whether that spawn happens inside a loop.
-func spawnedAncestor(f *ssa.Function) (*ssa.Function, bool) {
-	for cur := f; cur != nil && cur.Parent() != nil; cur = cur.Parent() {
-		par := cur.Parent()
-		for _, c := range CallsIn(par, false) {
-			for _, sp := range spawnedClosures(c) {
-				if sp == cur {
-					return cur, inLoop(c.Block())
-				}
-			}
-		}
-	}
-	return nil, false
 }
